@@ -131,7 +131,7 @@ func genC02(r *kit.RNG) *C01Scenario {
 				t.Zone = kit.Pick(r, zones)
 			}
 			switch t.Kind {
-			case "nx-for-existing", "nodata-for-existing", "forge-unsigned", "wildcard-replay", "wildcard-replay-other-nsec", "wildcard-replay-forged-nsec":
+			case "nx-for-existing", "nx-retired-salt", "nodata-for-existing", "forge-unsigned", "wildcard-replay", "wildcard-replay-other-nsec", "wildcard-replay-forged-nsec":
 				t.Step = "answer"
 			case "nods-for-secure":
 				t.Step = "referral"
